@@ -102,7 +102,7 @@ class Run:
         self.violations = []
         self.extra = {}
         self._hint_seen = set()
-        self.solver_timeout = 20 if tier == "quick" else 300
+        self.solver_timeout = 60 if tier == "quick" else 600
         self.cross_solvers = [] if tier == "quick" else ["z3old"]
         os.makedirs(OUT, exist_ok=True)
 
@@ -285,6 +285,9 @@ class Run:
             else:
                 self.inconclusive.append(f"{o.name}: model did not reproduce on the real build "
                                          f"(encoding or spec suspect): {str(detail)[:300]}")
+            return
+        if getattr(o, "optional", False) and r.status in ("unknown", "timeout"):
+            self.extra["optional_undecided"] = self.extra.get("optional_undecided", 0) + 1
             return
         self.inconclusive.append(f"{o.name}: solver answered {r.status} after {r.secs:.1f}s")
 
